@@ -16,10 +16,10 @@ FAMS = [
                   {"exec": "asyncio", "faulty": True, "cancels": True,
                    "p_srv_idle_close": 0.1}, [], [_posts]),
     PoolMixFamily("C01", "poolmix-threads", 800, 15000,
-                  {"exec": "threads", "p_srv_idle_close": 0.1, "max_callers": 4},
+                  {"exec": "threads", "p_srv_idle_close": 0.1, "max_callers": 4, "protos": ["h1"]},
                   [], [_posts]),
     PoolMixFamily("C01", "poolmix-threads-faulty", 500, 10000,
-                  {"exec": "threads", "faulty": True, "max_callers": 4}, [], [_posts]),
+                  {"exec": "threads", "faulty": True, "max_callers": 4, "protos": ["h1"]}, [], [_posts]),
 ]
 
 register("C01", {
